@@ -48,9 +48,10 @@ yaml12_float_regex = re.compile(
         r'  )'
         # infinity
         r'|\.(?:inf|Inf|INF)'
-        # not a number
+        r')'
+        # not a number, which has no sign
         r'|\.(?:nan|NaN|NAN)'
-        r'))$', re.X)
+        r')$', re.X)
 """The YAML 1.2 float format, which the Loader uses instead of PyYAML's."""
 
 
